@@ -116,6 +116,21 @@ func genC10(seed uint64) *Scenario {
 				}
 			}
 		}
+		if i == 2 || i == 3 {
+			// ... and under another serialisation of the same document (member order at i == 2, YAML at i == 3)
+			for k := range ops {
+				if ops[k].Kind == KSpec && ops[k].Doc == doc && ops[k].COE != nil && ops[k].Role == "" {
+					op.Kind, op.COE = KSpec, bp(*ops[k].COE)
+					op.ReuseSV = reuseSV
+					if i == 2 {
+						op.Reorder, op.YAML = !ops[k].Reorder, ops[k].YAML
+					} else {
+						op.Reorder, op.YAML = ops[k].Reorder, !ops[k].YAML
+					}
+					break
+				}
+			}
+		}
 		add(op)
 	}
 	if twin != "" {
